@@ -185,7 +185,11 @@ impl Prop for PCli {
                 args.push(os(&json_to_bytes(&input["arg"])));
             }
         } else {
+            // "nest": the whole expression inside that many pairs of parentheses (they change nothing)
+            let nest = input.get("nest").and_then(|n| n.as_u64()).unwrap_or(0) as usize;
+            args.extend(std::iter::repeat(OsString::from("(")).take(nest));
             args.extend(words_to_args(&arr(&input["words"]), &vrec));
+            args.extend(std::iter::repeat(OsString::from(")")).take(nest));
         }
         let before = snapshot(&dir.join("F"));
         let log = dir.parent().unwrap().join("vrec.log");
@@ -260,6 +264,10 @@ impl Prop for PCli {
             words = vec![json!({"k": "prim", "prim": "-printf", "kind": "action", "okind": "printf", "arg": bytes_to_json(f.as_bytes())})];
         }
         let mut v = json!({"words": words, "hazard": true, "form": rng.below(1000), "outfull": short && rng.chance(1, 6)});
+        if short && _idx % 30 == 1 {
+            // parentheses nest to any depth
+            v["nest"] = json!(*rng.pick(&[40u64, 150, 1500]));
+        }
         if rng.chance(1, 4) {
             v["pre"] = json!([*rng.pick(&["-P", "-H", "-L", "-O2"])]);
         }
